@@ -343,6 +343,64 @@ pub fn do_cop(sh: &Arc<Shared>, local: &mut TaskLocal, op: &Op) -> OpResult {
             sh.shape(Fnv::of(&[cs.flavour, (cs.absorbed.len() % 1024 != 0) as u8, ((cs.absorbed.len() / 1024) as u64).count_ones() as u8, tbb.is_some() as u8, 77]));
             Ok(f.0)
         }
+        Op::CFinalizeHuge { c, seek, extra } => {
+            let cs = get!(local, *c);
+            let n: usize = (1usize << 32) + *extra as usize;
+            let pos = seek.unwrap_or(0);
+            if (pos as u128) + (n as u128) > u64::MAX as u128 {
+                return Err(OpErr::Skip);
+            }
+            const WIN: usize = 2 << 20;
+            let total = (n + WIN - 1) / WIN * WIN;
+            let before = hasher_bytes(&cs.h);
+            let fl = cs.flavour;
+            // reserve [total bytes][one inaccessible page], then lay the same 2 MiB of memory over the whole range
+            let res = unsafe {
+                let fd = libc::memfd_create(b"b3sim-window\0".as_ptr() as *const libc::c_char, 0);
+                if fd < 0 || libc::ftruncate(fd, WIN as libc::off_t) != 0 {
+                    return Err(OpErr::Harness("memfd for the huge output window".into()));
+                }
+                let base = libc::mmap(std::ptr::null_mut(), total + 4096, libc::PROT_NONE, libc::MAP_PRIVATE | libc::MAP_ANONYMOUS | libc::MAP_NORESERVE, -1, 0);
+                if base == libc::MAP_FAILED {
+                    libc::close(fd);
+                    return Err(OpErr::Harness("address space for the huge output window".into()));
+                }
+                let mut ok = true;
+                let mut off = 0usize;
+                while off < total {
+                    let p = libc::mmap((base as *mut u8).add(off) as *mut libc::c_void, WIN, libc::PROT_READ | libc::PROT_WRITE, libc::MAP_SHARED | libc::MAP_FIXED, fd, 0);
+                    if p == libc::MAP_FAILED {
+                        ok = false;
+                        break;
+                    }
+                    off += WIN;
+                }
+                let r = if ok {
+                    // the buffer ends flush against the inaccessible page
+                    let outp = (base as *mut u8).add(total - n);
+                    let hp = &*cs.h as *const HasherC;
+                    let _g = crate::guard::SutGuard::enter();
+                    match (fl, seek) {
+                        (0, None) => ca::finalize(hp, outp, n),
+                        (_, None) => ci::finalize(hp, outp, n),
+                        (0, Some(s)) => ca::finalize_seek(hp, *s, outp, n),
+                        (_, Some(s)) => ci::finalize_seek(hp, *s, outp, n),
+                    }
+                    Ok(())
+                } else {
+                    Err(OpErr::Harness("mapping the huge output window".into()))
+                };
+                libc::munmap(base, total + 4096);
+                libc::close(fd);
+                r
+            };
+            res?;
+            if hasher_bytes(&cs.h) != before {
+                return viol("state-diverged", "blake3_hasher_finalize changed the hasher".into());
+            }
+            sh.probe("c_out_len_above_2^32");
+            Ok(n as u64)
+        }
         Op::CFinalize { c, seek, out_len } => {
             let cs = get!(local, *c);
             let n = *out_len;
